@@ -119,6 +119,9 @@ type Books struct {
 	tokens  []*bToken
 	nextTok int
 
+	// tieBlind: see tiesAcrossFees (evaluated on the acting wallet before every operation)
+	tieBlind bool
+
 	ops    []string // replay: one line per operation
 	logPos int
 	opIdx  int
@@ -520,6 +523,44 @@ func (b *Books) begin(kind string, w int, line string) {
 		b.dirty[w] = true
 	}
 	b.ops = append(b.ops, line)
+	b.tieBlind = false
+	if w >= 0 && w < len(b.wallets) && b.wallets[w].W != nil {
+		b.tieBlind = b.tiesAcrossFees(b.wallets[w])
+	}
+}
+
+// tiesAcrossFees: the wallet holds, at one mint, proofs of EQUAL amount in keysets with DIFFERENT input fees.  Which of
+// them an unexact first selection picked (unstable sort.Slice over lists longer than 12, Go map order of the inactive
+// keysets) is not observable from outside, yet decides the fee and with it whether the offline selection is exact:
+// the model's replay of the selection (oracle = inputs of the first request) is not determined for such an operation.
+func (b *Books) tiesAcrossFees(w *bWallet) bool {
+	type key struct {
+		mint int
+		amt  uint64
+	}
+	seen := map[key]map[uint]bool{}
+	fee := map[string]uint{}
+	for _, m := range b.mints {
+		for _, k := range m.env.M.ListKeysets().Keysets {
+			fee[k.Id] = k.InputFeePpk
+		}
+	}
+	for _, p := range w.rawDB().GetProofs() {
+		mi := b.mintOfKeyset(p.Id)
+		f, ok := fee[p.Id]
+		if mi < 0 || !ok {
+			continue
+		}
+		k := key{mi, p.Amount}
+		if seen[k] == nil {
+			seen[k] = map[uint]bool{}
+		}
+		seen[k][f] = true
+		if len(seen[k]) > 1 {
+			return true
+		}
+	}
+	return false
 }
 
 func (b *Books) replay() map[string]any {
@@ -528,7 +569,8 @@ func (b *Books) replay() map[string]any {
 	if n > 400 {
 		from = n - 400
 	}
-	return map[string]any{"seed": b.c.Seed, "tier": b.c.Tier, "op_index": b.opIdx, "ops": b.ops[from:]}
+	// world "h<k>": history k of stream wallet-hist, replayable alone with VERIF_WH_ONLY=k and the same seed and tier
+	return map[string]any{"seed": b.c.Seed, "tier": b.c.Tier, "world": filepath.Base(b.c.Scratch), "op_index": b.opIdx, "ops": b.ops[from:]}
 }
 
 type wireOutputs struct {
